@@ -25,6 +25,7 @@ package c36
 import (
 	"errors"
 	"fmt"
+	"strconv"
 	"strings"
 	"sync"
 	"sync/atomic"
@@ -500,13 +501,14 @@ func (h *harness) requester(g *gor, ri int, plain queue.Client) {
 func (h *harness) flood(g *gor, who string, cl queue.Client, rc reqCfg) {
 	refused, sent := 0, 0
 	defer func() { h.logf("%s flood: %d accepted, %d refused", who, sent, refused) }()
+	desc := fmt.Sprintf("Send(async flood ->topic%d send_ms=%d)", rc.FloodTopic, rc.FloodMs) // one string: the loop must stay cheap
 	for i := 0; i < rc.Flood && refused < 3; i++ {
-		token := fmt.Sprintf("F%d", h.tokSeq.Add(1))
+		token := "F" + strconv.FormatInt(h.tokSeq.Add(1), 10)
 		pre := anySet(h.returned, h.relevant(rc.Client, rc.FloodTopic))
 		i0 := h.initCount.Load()
 		msg := cl.NewMessage(h.tname[rc.FloodTopic], tyAsync, &payload{Token: token, Topic: rc.FloodTopic})
 		var err error
-		g.call(fmt.Sprintf("Send(%s->topic%d async flood #%d send_ms=%d)", token, rc.FloodTopic, i, rc.FloodMs), rc.FloodMs < 0, func() {
+		g.call(desc, rc.FloodMs < 0, func() {
 			if rc.FloodMs < 0 {
 				err = cl.Send(msg, false)
 			} else {
@@ -520,8 +522,8 @@ func (h *harness) flood(g *gor, who string, cl queue.Client, rc reqCfg) {
 		if err != nil {
 			refused++
 			h.logf("%s flood #%d %s -> %v (closedBefore=%v)", who, i, token, err, pre)
-		} else {
-			sent++
+		} else if sent++; sent%10000 == 0 {
+			h.logf("%s flood: %d accepted so far (last %s)", who, sent, token)
 		}
 		h.checkSendErr(who, token, rc.Client, rc.FloodTopic, rc.FloodMs, pre, err)
 	}
@@ -548,21 +550,43 @@ func (h *harness) doClose(g *gor, target int) {
 	h.logf("%s: Close(%s) returned", g.name, h.targetName(target))
 }
 
-// closer fires the close plan at the drawn point: when `At` requests have been started, or when the traffic has
-// stopped moving (everybody parked behind a stalled module) or ended.  The clock only picks the schedule here.
+// requestersParked: every requester (other than those of the unsubscribed topic) has finished or is parked by the
+// runtime inside a queue call — the traffic stands still behind a stalled module or a full channel.
+func (h *harness) requestersParked() bool {
+	d := dumpAll()
+	var seen []string
+	for _, g := range h.allGors() {
+		if !strings.HasPrefix(g.name, "req") || g.late || g.finished() {
+			continue
+		}
+		gd, ok := d[g.gid]
+		if !ok || !strings.HasPrefix(g.st.Load().s, "q:") || !parked(gd.status) {
+			return false
+		}
+		seen = append(seen, fmt.Sprintf("%s [%s] in %s", g.name, gd.status, g.st.Load().s[2:]))
+	}
+	h.logf("traffic stands still: %s", strings.Join(seen, "; "))
+	return true
+}
+
+// closer fires the close plan at the drawn point: when `At` requests have been started, or when the traffic stands
+// still (no progress and every requester parked in a queue call) or has ended.  This only picks the schedule.
 func (h *harness) closer(g *gor) {
 	cp := h.sc.Close
 	last, lastChange := h.progress.Load(), time.Now()
-	idle := 50 * time.Millisecond
-	if cp.At == atStandstill {
-		idle = 200 * time.Millisecond // give the burst/flood sender time to really fill the channel
-	}
+	const idle = 30 * time.Millisecond
+	still := 0
 	g.set("sleep", false)
 	for h.started.Load() < int64(cp.At) && h.reqDone.Load() < int64(h.normalReqs) {
 		if p := h.progress.Load(); p != last {
-			last, lastChange = p, time.Now()
-		} else if time.Since(lastChange) > idle {
-			break
+			last, lastChange, still = p, time.Now(), 0
+		} else if time.Since(lastChange) > idle { // two looks, 30 ms apart, without any progress in between
+			if !h.requestersParked() {
+				still = 0
+			} else if still++; still == 2 {
+				break
+			}
+			lastChange = time.Now()
 		}
 		time.Sleep(200 * time.Microsecond)
 	}
@@ -871,8 +895,10 @@ func TestKnown_AsyncSendParkedAtClose(t *testing.T) {
 			Reqs:   []reqCfg{{Client: -1, Flood: 42000, FloodTopic: 0, FloodMs: -1}},
 			Close:  &closeCfg{What: what, At: atStandstill, GapUs: []int{0}},
 		}
-		_, viol := runScenario(sc)
-		if viol != "" {
+		h, viol := runScenario(sc)
+		if viol == "" {
+			t.Logf("close plan %v: the parked async Send was released; history:\n%s", what, h.history())
+		} else {
 			if !strings.HasPrefix(viol, "O5:") || !strings.Contains(viol, "async flood") {
 				lib.Violation(t, prop, "TestKnown_AsyncSendParkedAtClose", sc, "%s", viol)
 			}
